@@ -212,6 +212,14 @@ def main():
         except subprocess.TimeoutExpired:
             rc, out = 124, 'harness timed out'
         log.append(out[-4000:])
+        if rc == 124 and '--search' in cmd and not os.path.exists(out_json):
+            # the wider search did not finish within the budget: the ordinary run of the harness (its oracles run on every
+            # sample) still gets its chance to exhibit a failing input
+            try:
+                rc, out = sh(cmd.replace(' --search', ''), timeout=budget)
+            except subprocess.TimeoutExpired:
+                rc, out = 124, 'harness timed out'
+            log.append(out[-4000:])
         if not os.path.exists(out_json) and broken and '--no-model' not in cmd and rc != 124:
             # an obligation broke and the harness died (typically: the generated model of the changed source is missing or does
             # not compile, so nothing can be evaluated inside Coq): search for a failing input with the direct oracles alone
